@@ -19,6 +19,8 @@ def build_cases(rng, tier):
         be = r.weighted([('nr', 4), ('r', 4), ('c99', 2)])
         prog = rulesets.gen_program(r, trailing=False, max_scs=0, csize=256)
         hs = [bufprog.gen_history(r.fork("h%d" % k), prog, r.pick([10, 25, maxlen]), deep=(k == 2)) for k in range(3)]
+        if i % 8 == 3:
+            hs.append(bufprog.gen_tower(r.fork("tower"), prog, r.pick([10, 12, 18, 19])))
         cases.append({'id': "b%d" % i, 'prog': prog, 'backend': be, 'flex_opts': list(r.pick(OPTS)) + ["-8"], 'lineno': r.chance(60),
                       'histories': hs, 'seed': r.s, 'text': ''})
     return cases
